@@ -541,6 +541,44 @@ fn eval(a: &[String]) -> String {
       }
       out
     }
+    "lunar_lists_scan" => {
+      // list accessors of lunar months / lunar days / sexagenary days / sexagenary months over 2019..2026
+      use tyme4rs::tyme::lunar::{LunarYear, LunarDay};
+      use tyme4rs::tyme::sixtycycle::SixtyCycleYear;
+      let mut out = "NONE".to_string();
+      'scan: for y in 2019isize..=2026 {
+        for mon in LunarYear::from_year(y).get_months() {
+          let days = mon.get_days();
+          if days.len() != mon.get_day_count() { out = format!("lunar month {} {}: {} days listed, day count {}", y, mon.get_month_with_leap(), days.len(), mon.get_day_count()); break 'scan; }
+          for (k, d) in days.iter().enumerate() {
+            if d.get_day() != k + 1 || d.get_month() != mon.get_month_with_leap() || d.get_year() != y { out = format!("lunar month {} {}: element {}", y, mon.get_month_with_leap(), k); break 'scan; }
+          }
+          let d: &LunarDay = &days[(y as usize + 7) % days.len()];
+          let hs = d.get_hours();
+          let want: Vec<usize> = vec![0, 1, 3, 5, 7, 9, 11, 13, 15, 17, 19, 21, 23];
+          if hs.len() != 13 || hs.iter().map(|h| h.get_hour()).collect::<Vec<usize>>() != want || hs.iter().any(|h| h.get_minute() != 0 || h.get_second() != 0 || h.get_day() != d.get_day() || h.get_month() != d.get_month()) {
+            out = format!("hours of lunar day {} {} {}", y, d.get_month(), d.get_day()); break 'scan;
+          }
+          let sd = d.get_solar_day();
+          let sh = sd.get_sixty_cycle_day().get_hours();
+          let p = sd.next(-1);
+          let t0 = SolarTime::from_ymd_hms(p.get_year(), p.get_month(), p.get_day(), 23, 0, 0);
+          if sh.len() != 12 || sh.iter().enumerate().any(|(k, h)| h.get_solar_time().subtract(t0) != 7200 * k as isize) {
+            out = format!("double-hours of sexagenary day {}-{}-{}", sd.get_year(), sd.get_month(), sd.get_day()); break 'scan;
+          }
+        }
+        let ms = SixtyCycleYear::from_year(y).get_months();
+        for (k, m) in ms.iter().enumerate() {
+          let ds = m.get_days();
+          let first = m.get_first_day().get_solar_day();
+          let nxt = m.next(1).get_first_day().get_solar_day();
+          if ds.len() as isize != nxt.subtract(first) || ds.iter().enumerate().any(|(j, d)| d.get_solar_day().subtract(first) != j as isize) {
+            out = format!("days of sexagenary month {} of {}: {} listed, {} expected", k, y, ds.len(), nxt.subtract(first)); break 'scan;
+          }
+        }
+      }
+      out
+    }
     "fortune_scan" => {
       // decade / yearly fortunes of births on every 3rd day of 2000-2001 (both genders): ages, years and pillars against the rule
       use tyme4rs::tyme::eightchar::ChildLimit;
